@@ -158,8 +158,10 @@ static void search_callback(void *arg, ares_status_t status, size_t timeouts,
     return;
   }
 
-  /* We have no more domains to search, return an appropriate response. */
-  if (mystatus == ARES_ENOTFOUND && squery->ever_got_nodata) {
+  /* We have no more domains to search, return an appropriate response: if any
+   * candidate existed without data that is the answer, whatever the last
+   * candidate said (not found, or a tolerated failure on a single label) */
+  if (squery->ever_got_nodata) {
     end_squery(squery, ARES_ENODATA, NULL);
     return;
   }
